@@ -134,6 +134,37 @@ def check_isolation(chk):
         raise Unrecognised('C17.I', 'no store of urlFn found (the nested run is not re-based?)', None)
 
 
+def check_parser_side_sim(chk):
+    """C17.P primary: parse_script evaluated (E6p) on a text with quoted and system includes -> True when decided OK"""
+    from ..parsesim import ParseInterp
+    mod = chk.repo.module('parser')
+    func = mod.func('parse_script', 'C17.P')
+    it = ParseInterp(chk.repo, mod, 'C17.P')
+    text = "include 'a.bare'\ninclude <b.bare>\n  include  'it\\'s here.bare'  \ninclude <sub/c d.bare>\nx = 1\ninclude <d.bare>\ninclude 'http://h.example/e.bare'\n"
+    got = it.parse(func, text)
+    if got[0] != 'ok':
+        chk.bad('C17.P', mod, 'parse_script', 'include statements rejected', f'well-formed include statements are rejected: {got[1]}{got[2][:1]!r}', node=func)
+        return False
+    stmts = got[1].get('statements') if isinstance(got[1], dict) else None
+    want = [[('a.bare', False), ('b.bare', True), ("it's here.bare", False), ('sub/c d.bare', True)], None, [('d.bare', True), ('http://h.example/e.bare', False)]]
+    shape = []
+    for s in stmts or []:
+        if isinstance(s, dict) and 'include' in s:
+            incs = s['include'].get('includes') if isinstance(s['include'], dict) else None
+            if not isinstance(incs, list) or not all(isinstance(i, dict) and set(i) <= {'url', 'system'} for i in incs):
+                raise Unrecognised('C17.P', f'include statement of unexpected shape: {s!r}'[:160], mod.rel)
+            shape.append([(i.get('url'), bool(i.get('system', False))) for i in incs])
+        else:
+            shape.append(None)
+    if shape != want:
+        chk.bad('C17.P', mod, 'parse_script', f'includes parsed as {shape!r}'[:120],
+                f'evaluation of parse_script on seven include lines around an assignment gives {shape!r}; adjacent include lines merge into one statement in program order, a later '
+                f'include starts a new statement, <...> sets the system flag, quoted locations lose their quote escapes: {want!r}', node=func)
+        return False
+    chk.ok('C17.P', 'parse_script evaluated on quoted / system includes: adjacent lines merge in program order, separated ones do not, system flag from <...>, quote escapes removed', count=7)
+    return True
+
+
 def check_parser_side(chk):
     pm = ParserModel(chk.repo, 'C17.P')
     rnames = pm.kind_regex.get('include', [])
@@ -193,6 +224,47 @@ def _inline_locals(func):
                     and len(t.elts) == 3 and all(isinstance(e, ast.Name) for e in t.elts) and n.value.args and const_str(n.value.args[0]) == '/':
                 rpart[(t.elts[0].id, t.elts[1].id)] = norm(n.value.func.value)
     return {k: v for k, v in defs.items() if counts[k] == 1}, rpart
+
+
+def check_url_file_relative_sim(chk):
+    """C17.U primary: url_file_relative evaluated on (including file, reference) pairs - URL and path bases, absolute and relative references -> True when decided OK"""
+    import posixpath
+    import pathlib
+    import re as _re
+    from ..absint import Interp, RaiseSig
+    mod = chk.repo.module('options')
+    func = mod.func('url_file_relative', 'C17.U')
+    it = Interp(mod, 'C17.U')
+    it.repo = chk.repo
+    files = ['http://h.example/a/b/main.bare', 'https://h.example/main.bare', 'dir/sub/main.bare', '/abs/dir/main.bare', 'main.bare', 'file:///x/y.bare', 'a/b.c/d']
+    urls = ['http://o.example/x.bare', 'https://o.example/p/x.bare?q=1', '/abs/x.bare', 'x.bare', 'sub/x.bare', '../x.bare', './x.bare', 'lib/../x.bare', 'x y.bare', 'mailto:x']
+    is_url = _re.compile(r'^[a-z]+:')
+    n = 0
+    for f in files:
+        for u in urls:
+            n += 1
+            if is_url.match(u):
+                want = u
+            elif u.startswith('/'):
+                want = str(pathlib.PurePosixPath(u))
+            elif is_url.match(f):
+                want = f[:f.rfind('/') + 1] + u
+            else:
+                want = posixpath.join(posixpath.dirname(f), str(pathlib.PurePosixPath(u)))
+            it.depth = 0
+            try:
+                got = it.call_function(func, [f, u], func)
+            except RaiseSig as sig:
+                chk.bad('C17.U', mod, func.name, f'url_file_relative({f!r}, {u!r}) raises {sig.cls}', f'url_file_relative({f!r}, {u!r}) raises {sig.cls}', node=func)
+                return False
+            if got != want:
+                chk.bad('C17.U', mod, func.name, f'url_file_relative({f!r}, {u!r}) = {got!r}',
+                        f'evaluation: url_file_relative({f!r}, {u!r}) gives {got!r}; resolving the reference against the file that contains the include gives {want!r} (absolute URLs and absolute '
+                        f'paths unchanged; otherwise the directory of the including file / URL followed by the reference)', node=func)
+                return False
+    chk.ok('C17.U', f'url_file_relative evaluated on {n} (including file, reference) pairs: absolute URLs and absolute paths are returned unchanged, relative references are appended to the '
+           f'directory of the including URL / path', count=n)
+    return True
 
 
 def check_url_file_relative(chk):
@@ -315,6 +387,13 @@ def run(chk):
     chk.assumptions += ['os.path / pathlib behave as documented; fetchFn/urlFn are host functions']
     chk.guard('C17.R', check_include_sim, chk)
     chk.guard('C17.I', check_isolation, chk)
-    chk.guard('C17.P', check_parser_side, chk)
-    chk.guard('C17.U', check_url_file_relative, chk)
+    if chk.guard('C17.P', check_parser_side_sim, chk):
+        chk.advisory('C17.P', check_parser_side, chk)
+        chk.floors['C17.P'] = 1
+    else:
+        chk.guard('C17.P', check_parser_side, chk)
+    if chk.guard('C17.U', check_url_file_relative_sim, chk):
+        chk.advisory('C17.U', check_url_file_relative, chk)
+    else:
+        chk.guard('C17.U', check_url_file_relative, chk)
     chk.guard('C17.C', check_cli, chk)
